@@ -28,7 +28,7 @@ type Array struct {
 	Name  string   `json:"name"`
 	Kind  string   `json:"kind"` // Seq | Bag | Alt
 	Items []string `json:"items"`
-	Langs []string `json:"langs,omitempty"` // Alt: xml:lang per item
+	Langs []string `json:"langs,omitempty"` // xml:lang qualifier per item ("" = none); always present on Alt items, optional on Seq / Bag items
 	Block int      `json:"block"`
 }
 
@@ -152,7 +152,7 @@ func Serialise(r Record) []byte {
 				ai++
 				fmt.Fprintf(&sb, "%s<%s:%s>%s<rdf:%s>", ws, a.NS, a.Name, ws, a.Kind)
 				for i, it := range a.Items {
-					if a.Kind == "Alt" && i < len(a.Langs) {
+					if i < len(a.Langs) && a.Langs[i] != "" {
 						fmt.Fprintf(&sb, "%s<rdf:li xml:lang=\"%s\">%s</rdf:li>", ws, a.Langs[i], it)
 					} else {
 						fmt.Fprintf(&sb, "%s<rdf:li>%s</rdf:li>", ws, it)
